@@ -43,8 +43,8 @@ TRANSLATED = TRANSLATED + ["evictable"]
 THEOREMS = list(THEOREMS) + [f"NauyacaVerif.Translated.{t}" for t in ("evictable_eq", "cleanup_is_filter", "evictable_full")]
 # RateLimiter.process_request itself (get-or-create in a dictionary of mutable objects, one consume() on that address's bucket, the 44 line)
 LEAN_TARGETS = LEAN_TARGETS + ["NauyacaVerif.Props.Tr.LimiterRequest"]
-TRANSLATED = TRANSLATED + ["limiterRequest"]
-THEOREMS = THEOREMS + [f"NauyacaVerif.Translated.{t}" for t in ("limiter_request_shape", "consumeAt_spec", "limiter_request_eq")]
+TRANSLATED = TRANSLATED + ["limiterRequest", "bucketInit"]
+THEOREMS = THEOREMS + [f"NauyacaVerif.Translated.{t}" for t in ("limiter_request_shape", "consumeAt_spec", "limiter_request_eq", "bucket_init_eq", "pyPut_is_init")]
 EXTRACT = ["cleanupPeriod", "cleanupAge", "evictOnlyRefilled", "limiterAtomic"]
 EXTRACT_EXPECT = {"evictOnlyRefilled": True, "limiterAtomic": True}
 ASSUMPTIONS = [
